@@ -84,7 +84,7 @@ var (
 	reDecVbOps = regexp.MustCompile(`^if len\(data\) (==|!=|<=|>=|<|>) 0 .* if \w+&\d+ (==|!=|<=|>=|<|>) 0 \{ \*v = `)
 	// … of bindata.UnmarshalBinary: the zero-length test
 	reDecBinOps = regexp.MustCompile(`\} ; if \w+ (==|!=|<=|>=|<|>) 0 \{ return nil \} ; `)
-	reDecBool   = regexp.MustCompile(`^switch data\[0\] \{ case 0: \*v = wbool\(false\) case 1: \*v = wbool\(true\) default: return fmt\.Errorf\("malformed bool"\) \} ; return nil$`)
+	reDecBool   = regexp.MustCompile(`^switch data\[0\] \{ case (\d+): \*v = wbool\(false\) case (\d+): \*v = wbool\(true\) default: return fmt\.Errorf\("malformed bool"\) \} ; return nil$`)
 )
 
 type wireTy struct {
@@ -239,8 +239,8 @@ func wireGen() (string, []string) {
 			b := wireBody(fd)
 			if m := reDecByte.FindStringSubmatch(b); m != nil && m[1] == n {
 				def = fmt.Sprintf("fun data => match data with\n  | [] => .panic\n  | a :: _ => .ok a (Mq.Gen.%s.width a)", n)
-			} else if reDecBool.MatchString(b) && n == "wbool" {
-				def = "fun data => match data with\n  | [] => .panic\n  | a :: _ => if a = 0 then .ok false (Mq.Gen.wbool.width false) else if a = 1 then .ok true (Mq.Gen.wbool.width true) else .err .badBool"
+			} else if mb := reDecBool.FindStringSubmatch(b); mb != nil && n == "wbool" {
+				def = fmt.Sprintf("fun data => match data with\n  | [] => .panic\n  | a :: _ => if a = %s then .ok false (Mq.Gen.wbool.width false) else if a = %s then .ok true (Mq.Gen.wbool.width true) else .err .badBool", mb[1], mb[2])
 			} else if m := reDecFixed.FindStringSubmatch(b); m != nil && m[3] == n {
 				be := "beU" + m[4]
 				def = fmt.Sprintf("fun data =>\n  if data.length %s %s then .err .missing else .ok (%s data) (Mq.Gen.%s.width (%s data))", lt[m[1]], m[2], be, n, be)
